@@ -359,6 +359,18 @@ func c19Events(nlive int) []c19ev {
 			}
 			return -1, nil, true
 		})
+		un("ShallowCloneReturn", func(w *c19world, t *tensor.Dense) (int, [][]int, bool) {
+			// a shallow clone shares the DATA with its source by contract; handing the clone back to the pool must not
+			// recycle anything else of the source (its pending transpose, its axes)
+			y := t.ShallowClone()
+			tensor.ReturnTensor(y)
+			return -1, nil, true
+		})
+		un("ShallowCloneUT", func(w *c19world, t *tensor.Dense) (int, [][]int, bool) {
+			y := t.ShallowClone()
+			y.UT()
+			return -1, nil, true
+		})
 		un("Gob", func(w *c19world, t *tensor.Dense) (int, [][]int, bool) { t.GobEncode(); return -1, nil, true })
 		un("Return", func(w *c19world, t *tensor.Dense) (int, [][]int, bool) {
 			for _, o := range w.live {
